@@ -183,6 +183,7 @@ theorem info_evalStep (env : Env) (impl : FmtImpl) (cfg : Cfg) (rec : Rec) (inst
       · exact AllE_seqG (fun kv _ => info_runKeyword env impl cfg rec inst _ kv)
     · exact AllE_crashG _
   · exact AllE_crashG _
+  · exact AllE_crashG _
 
 theorem info_eval (env : Env) (impl : FmtImpl) (cfg : Cfg) (fuel : Nat) (i s : Json) :
     AllE (fun e => e.info.isSome = true) (eval env impl cfg fuel i s) := by
@@ -1388,6 +1389,7 @@ theorem inst_evalStep (env : Env) (impl : FmtImpl) {cfg : Cfg} (hpn : PNKey cfg)
       · exact AllE_seqG (fun kv _ => inst_runKeyword env impl hpn hrec hwi _ kv)
     · exact AllE_crashG _
   · exact AllE_crashG _
+  · exact AllE_crashG _
 
 theorem inst_eval (env : Env) (impl : FmtImpl) {cfg : Cfg} (hpn : PNKey cfg) (fuel : Nat) :
     InstRec (eval env impl cfg fuel) := by
@@ -1531,6 +1533,7 @@ theorem schema_evalStep (env : Env) (impl : FmtImpl) (d : Draft) (fc : Option Fo
       rw [hno]
       exact AllE_seqG (fun kv hkv => schema_runKeyword env impl d fc hrec inst hws hnr hkv)
     · exact AllE_crashG _
+  · exact AllE_crashG _
   · exact AllE_crashG _
 
 theorem schema_eval (env : Env) (impl : FmtImpl) (d : Draft) (fc : Option FormatChecker) (fuel : Nat) :
